@@ -6,7 +6,7 @@
 //! layout, next to decoy files (tmpfs enumerates in creation order, so discovery order changes).
 //! Oracle: byte-identical artifact trees and identical diagnostics (stderr after removing the
 //! timing phrases and the absolute directory name).
-use crate::cases::{self, CaseSpec, Exclusions};
+use gen_project::cases::{self, CaseSpec, Exclusions};
 use gen_project::compile::{self, CliRun};
 use gen_project::mutate::{self, ALL_RULES};
 use gen_project::tape::Tape;
